@@ -139,14 +139,24 @@ def _measure(inp):
         info["closed"] = both_boxes and grid
     tb, fb = _f(inp["tb"]), _f(inp["fb"])
     shapes = []
-    for gj, kd, nd in zip((inp["g1"], inp["g2"]), kinds, need):
-        if not nd:
-            shapes.append(None)
-            continue
-        g = gen_geom.to_data(gj)
-        if kd == "buffered":
-            g = buffer_geometry(g, time_buffer=tb, freq_buffer=fb)
-        shapes.append(geometry_to_shapely(g))
+    try:
+        for gj, kd, nd in zip((inp["g1"], inp["g2"]), kinds, need):
+            if not nd:
+                shapes.append(None)
+                continue
+            g = gen_geom.to_data(gj)
+            if kd == "buffered":
+                g = buffer_geometry(g, time_buffer=tb, freq_buffer=fb)
+            shapes.append(geometry_to_shapely(g))
+        inter = None
+        if not time_branch and all(x is not None for x in shapes):
+            inter = [[rat(float(shapes[i].intersection(shapes[j]).area)) for j in (0, 1)] for i in (0, 1)]
+    except Exception as e:  # noqa: BLE001 - shapely could not even build / overlay the prepared geometry
+        info.update({"measure_error": repr(e)[:200], "closed": False, "measured_pair": False, "extent_pos": False,
+                     "disjoint": False, "extent": [(Fraction(1), Fraction(1)), (Fraction(1), Fraction(1))]})
+        info["args"]["obs"] = [None, None]
+        _CACHE[k] = info
+        return info
     info["shapes"] = shapes
     obs = []
     for shp in shapes:
@@ -158,8 +168,8 @@ def _measure(inp):
     args = info["args"]
     args["obs"] = obs
     args["boxes_measured"] = boxes_measured
-    if not time_branch and all(x is not None for x in shapes):
-        args["inter"] = [[rat(float(shapes[i].intersection(shapes[j]).area)) for j in (0, 1)] for i in (0, 1)]
+    if inter is not None:
+        args["inter"] = inter
         info["measured_pair"] = True
     else:
         info["measured_pair"] = False
@@ -255,6 +265,8 @@ def _holds_pair(ctx, inp, io):
     info = _measure(inp)
     if info["branch"] == "error":
         return None
+    if "measure_error" in info:
+        ctx.tally("shapely could not measure the prepared geometry although compute_affinity returned")
     _contracts(ctx, inp, info)
     a12, a21 = io["val"]
     same = inp["g1"] == inp["g2"]
@@ -456,9 +468,13 @@ def _symbolic_ties(ctx):
     def marker(g1, g2):
         # stands for compute_affinity_in_time (tied separately, (b)): records the bounds it is reached with;
         # compute_bounds of a TimeInterval [s, e] is (s, 0, e, MAX_FREQUENCY)
-        if g1.type != "TimeInterval" or g2.type != "TimeInterval":
-            raise RuntimeError("time branch reached with " + str((g1.type, g2.type)))
-        return (g1.coordinates[0], g1.coordinates[1], g2.coordinates[0], g2.coordinates[1])
+        def se(g):
+            if g.type == "TimeInterval":
+                return (g.coordinates[0], g.coordinates[1])
+            if g.type == "TimeStamp":       # an unbuffered time stamp: bounds (t, 0, t, MAX_FREQUENCY)
+                return (g.coordinates, g.coordinates)
+            raise RuntimeError("time branch reached with " + str(g.type))
+        return se(g1) + se(g2)
 
     def full(mk1, mk2):
         def run():
@@ -504,8 +520,33 @@ def _bufs(rng, g1, g2, mode):
     return rng.choice(pool)
 
 
+def _is_simple(gj):
+    """inside the quantifier: polygons valid, lines not self-intersecting (a line that retraces itself makes
+    GEOS's buffer produce a degenerate ring and compute_affinity raise)"""
+    if gj["type"] in ("LineString", "MultiLineString"):
+        from soundevent.geometry import geometry_to_shapely
+        try:
+            return bool(geometry_to_shapely(gen_geom.to_data(gj)).is_simple)
+        except Exception:  # noqa: BLE001
+            return False
+    if gj["type"] in ("Polygon", "MultiPolygon"):
+        return gen_geom.is_simple(gj)
+    return True
+
+
+def _valid(rng, ty, **kw):
+    for _ in range(60):
+        g = gen_geom.gen_valid(rng, ty, **kw)
+        if g["type"] == ty and _is_simple(g):
+            return g
+    if ty in ("LineString", "MultiLineString"):
+        line = [["1", "1"], ["2", "3/2"]]
+        return {"type": ty, "coordinates": line if ty == "LineString" else [line]}
+    return gen_geom.gen_valid(rng, ty, **kw)
+
+
 def _grid_geom(rng, ty):
-    return gen_geom.gen_valid(rng, ty, tmax=4, fmax=4, k=rng.choice([1, 2, 2, 3]))
+    return _valid(rng, ty, tmax=4, fmax=4, k=rng.choice([1, 2, 2, 3]))
 
 
 def _free_geom(rng, ty):
@@ -531,8 +572,12 @@ def _free_geom(rng, ty):
     if ty == "MultiPoint":
         return {"type": ty, "coordinates": [pt() for _ in range(rng.randint(1, 5))]}
     if ty == "MultiLineString":
-        return {"type": ty, "coordinates": [sorted((pt() for _ in range(rng.randint(2, 4))), key=lambda p: frac(p[0]))
-                                            for _ in range(rng.randint(1, 3))]}
+        for _ in range(20):
+            g = {"type": ty, "coordinates": [sorted((pt() for _ in range(rng.randint(2, 4))), key=lambda p: frac(p[0]))
+                                             for _ in range(rng.randint(1, 3))]}
+            if _is_simple(g):
+                return g
+        return {"type": ty, "coordinates": [sorted((pt() for _ in range(2)), key=lambda p: frac(p[0]))]}
     # polygons: grid generator scaled into the window (valid by construction check)
     for _ in range(50):
         g = gen_geom.gen_geometry(rng, ty, tmax=4, fmax=4, k=6)
@@ -628,8 +673,8 @@ def _shift_cases(rng, reps):
             for _ in range(reps):
                 # keep the buffered geometries away from time 0 before and after the shift
                 # (mitre joins of a buffered line can reach 5 buffers beyond its end)
-                g1 = gen_geom.gen_valid(rng, t1, tmin=8, tmax=12, fmax=4, k=2)
-                g2 = gen_geom.gen_valid(rng, t2, tmin=8, tmax=12, fmax=4, k=2)
+                g1 = _valid(rng, t1, tmin=8, tmax=12, fmax=4, k=2)
+                g2 = _valid(rng, t2, tmin=8, tmax=12, fmax=4, k=2)
                 tb, fb = rng.choice([("1/4", "1/2"), ("1/2", "1"), ("1", "1/2")])
                 d = rng.choice(["1", "1/4", "8", "-1/2", "-1", "17/8", "100"])
                 yield {"g1": g1, "g2": g2, "tb": tb, "fb": fb, "d": d, "mode": "grid"}
@@ -640,18 +685,18 @@ def _correspondence(ctx):
     _run_pairs(ctx, list(_exhaustive_closed(ctx.thorough())))
     ctx.exhaustive["closed forms"] = ("all interval x interval, time stamp x interval (4 buffers), time stamp x time stamp, "
                                       "box x box and box x interval placements on a half-second / 1 Hz grid")
-    _run_pairs(ctx, list(_pair_cases(ctx.rng, ctx.budget(6, 60), "grid")))
-    _run_pairs(ctx, list(_boundary_geos(ctx.rng, ctx.budget(20, 300))))
-    _run_pairs(ctx, list(_self_cases(ctx.rng, ctx.budget(12, 150), "grid")))
+    _run_pairs(ctx, list(_pair_cases(ctx.rng, ctx.budget(16, 120), "grid")))
+    _run_pairs(ctx, list(_boundary_geos(ctx.rng, ctx.budget(60, 600))))
+    _run_pairs(ctx, list(_self_cases(ctx.rng, ctx.budget(30, 300), "grid")))
 
 
 def _free_mode(ctx):
-    _run_pairs(ctx, list(_pair_cases(ctx.rng, ctx.budget(4, 40), "free")))
-    _run_pairs(ctx, list(_self_cases(ctx.rng, ctx.budget(40, 400), "free")))
+    _run_pairs(ctx, list(_pair_cases(ctx.rng, ctx.budget(10, 80), "free")))
+    _run_pairs(ctx, list(_self_cases(ctx.rng, ctx.budget(80, 800), "free")))
 
 
 def _shifts(ctx):
-    ctx.run_cases(OPS["shift"], list(_shift_cases(ctx.rng, ctx.budget(2, 20))))
+    ctx.run_cases(OPS["shift"], list(_shift_cases(ctx.rng, ctx.budget(5, 40))))
 
 
 def _corpus(ctx):
